@@ -1376,7 +1376,7 @@ class _Subst(ast.NodeTransformer):
         return node
 
 
-def loops_to_comps(body: list[ast.stmt]) -> list[ast.stmt]:
+def loops_to_comps(body: list[ast.stmt], total: dict | None = None) -> list[ast.stmt]:
     """Idiom normaliser: rewrite accumulate-loops into comprehensions.
 
         acc = []                      |
@@ -1419,6 +1419,10 @@ def loops_to_comps(body: list[ast.stmt]) -> list[ast.stmt]:
                 else:
                     ok = False
             if ok and app is not None:
+                from .norm import _escapes
+                if _escapes(loop, set(mapping) | {n.id for n in ast.walk(loop.target) if isinstance(n, ast.Name)}, total):
+                    ok = False
+            if ok and app is not None:
                 comp = ast.ListComp(elt=app, generators=[ast.comprehension(target=loop.target, iter=loop.iter, ifs=[cond] if cond is not None else [], is_async=0)])
                 new = ast.Assign(targets=[ast.Name(id=acc, ctx=ast.Store())], value=comp)
                 ast.copy_location(new, loop)
@@ -1435,9 +1439,11 @@ def normalise_loops(stmts: list[ast.stmt]) -> list[ast.stmt]:
     """apply loops_to_comps to a statement list and, recursively, to every nested block (on a copy)"""
     import copy
     stmts = [copy.deepcopy(s) for s in stmts]
+    from .norm import _loads
+    total = _loads(stmts)
 
     def rec(block):
-        block = loops_to_comps(block)
+        block = loops_to_comps(block, total)
         for s in block:
             for fld in ("body", "orelse", "finalbody"):
                 b = getattr(s, fld, None)
